@@ -127,7 +127,7 @@ m = {
  },
  "engines": [
    {"name": "tlc+vh", "path": "bin/check", "serves_properties": [c["property_id"] for c in checks],
-    "kind_free_text": "TLA+ specifications in spec/ checked by TLC; behaviours generated by TLC replayed into the real code by the Rust harness harness/ (crate vh); traces recorded from the real code validated by TLC against Trace_* specifications"}
+    "kind_free_text": "TLA+ specifications in spec/ checked by TLC; behaviours generated by TLC replayed into the real code by the Rust harness harness/ (crate vh); traces recorded from the real code (replays and the repository's own fixtures) validated by TLC against Trace_* specifications; command-level models replayed through the tuftool binary; Apalache discharges the inductive invariant of RollbackCore.tla (unbounded versions) inside C03"}
  ],
  "checks": checks,
  "not_applicable": na,
